@@ -13,8 +13,9 @@ import (
 
 // Opts are the database options a scenario may choose (C13: they never change content).
 type Opts struct {
-	PageSize        int     `json:"pageSize"`
-	Freelist        string  `json:"freelist"` // array | hashmap
+	PageSize        int     `json:"pageSize"`    // the page size of the file (given to Open when the file is created)
+	AskPageSize     int     `json:"askPageSize"` // what a REOPEN passes as Options.PageSize (0 = the file's): must be ignored for an existing file
+	Freelist        string  `json:"freelist"`    // array | hashmap
 	NoFreelistSync  bool    `json:"noFreelistSync"`
 	NoGrowSync      bool    `json:"noGrowSync"`
 	InitialMmapSize int     `json:"initialMmapSize"`
@@ -30,6 +31,13 @@ type Opts struct {
 	MaxBatchDelayMs int     `json:"maxBatchDelayMs"`
 }
 
+func pageSizeOption(o Opts) int {
+	if o.AskPageSize != 0 {
+		return o.AskPageSize
+	}
+	return o.PageSize
+}
+
 func (o Opts) BoltOptions() *bolt.Options {
 	bo := &bolt.Options{
 		Timeout:         2 * time.Second,
@@ -38,7 +46,7 @@ func (o Opts) BoltOptions() *bolt.Options {
 		PreLoadFreelist: o.PreLoadFreelist,
 		ReadOnly:        o.ReadOnly,
 		InitialMmapSize: o.InitialMmapSize,
-		PageSize:        o.PageSize,
+		PageSize:        pageSizeOption(o),
 		Mlock:           o.Mlock,
 		MaxSize:         o.MaxSize,
 		NoStatistics:    o.NoStatistics,
@@ -86,11 +94,12 @@ type txh struct {
 
 // Session drives one database file.
 type Session struct {
-	Path string
-	Opts Opts
-	Prof Profile
-	T    *Tracer
-	DB   *bolt.DB
+	Path    string
+	Opts    Opts
+	Prof    Profile
+	T       *Tracer
+	DB      *bolt.DB
+	reopens int // number of reopenings so far (drives the page-size option of the next one)
 
 	txs  map[int]*txh
 	curs map[int]*curh
@@ -267,6 +276,9 @@ func (s *Session) Reopen(o *Opts) error {
 		s.Opts = *o
 		s.Opts.PageSize = ps
 	}
+	// C13: the page size of an existing file comes from the file; every second reopen asks for another one
+	s.reopens++
+	s.Opts.AskPageSize = []int{0, 2 * s.Opts.PageSize, 0, 4 * s.Opts.PageSize}[s.reopens%4]
 	return s.Open(false)
 }
 
